@@ -292,6 +292,9 @@ func (m *mon) onVerify(op, ans string) {
 }
 
 func (P) Monitor(c *hx.CaseRun) []hx.Failure {
+	if fs := dupevMonitor(c); len(fs) > 0 {
+		return fs
+	}
 	m := &mon{votes: map[int]*pvote{}, valid: map[int][]*pvote{}, claimed: map[string]bool{}, total: new(big.Int)}
 	sb := map[string]msgT{} // signbytes answers -> canonical tuple
 	for i, op := range c.Ops {
